@@ -97,7 +97,10 @@ def main(inp, outp):
                            and abs(np.linalg.norm(b[:3]) - np.linalg.norm(x0[:3])) <= 1e-9 * np.linalg.norm(x0[:3]), "frames/rotation",
                            f"{walk} at {dspec}: |RR^T-I|={ortho:.3g}, det={np.linalg.det(R)}", data)
                 # velocity = d/dt of the converted position of a point moving uniformly in the source frame
-                if job.get("kinematics", True):
+                # the EOP tables are per-day step functions (UT1-UTC jumps by 1 s at a leap second, by ~1 ms on any other day):
+                # a finite difference across midnight measures the table step, not the conversion - no stencil there
+                secs = dspec[3] * 3600 + dspec[4] * 60 + dspec[5]
+                if job.get("kinematics", True) and 200 <= secs <= 86400 - 200:
                     # seven-point stencil with h = 30 s: the library evaluates sidereal angles from float Julian dates
                     # (40 us resolution, i.e. ~2 cm of position jitter) which a short baseline would amplify, and
                     # orbit-attached centres move on a curved path (truncation ~ w_orb^7 h^6 R / 140 = 4e-8 m/s)
